@@ -34,6 +34,7 @@ type E1Job struct {
 	HInit       string       `json:"hinit,omitempty"`        // handle level: initial content spec of /f, or "<missing>"
 	HFlags      int          `json:"hflags,omitempty"`       // handle level: OpenFile flags
 	Level       string       `json:"level,omitempty"`        // "" = afero level (hierarchical reference), "archive" = Operations level (flat reference)
+	NoWalk      bool         `json:"nowalk,omitempty"`       // state enumeration only (level raw, no oracles): never read through the file system, so that states with a streaming read under way are kept
 }
 
 type E1Res struct {
@@ -451,8 +452,10 @@ func RunE1(env *Env, job *E1Job) *E1Res {
 			ctx.shape = OpShape(m, o)
 			shapeAtOp = ctx.shape
 			ph.Name = "pre-walk"
-			ctx.preTree = rig.Walk(st.AFS, "/")
-			vsync.Quiesce()
+			if !job.NoWalk {
+				ctx.preTree = rig.Walk(st.AFS, "/")
+				vsync.Quiesce()
+			}
 			ctx.preTape = readTape(st)
 			ctx.mPre = m.Clone()
 			ph.Name = "op"
@@ -477,8 +480,10 @@ func RunE1(env *Env, job *E1Job) *E1Res {
 		}
 		ctx.m = m
 		ph.Name = "post-walk"
-		ctx.postTree = rig.Walk(st.AFS, "/")
-		vsync.Quiesce()
+		if !job.NoWalk {
+			ctx.postTree = rig.Walk(st.AFS, "/")
+			vsync.Quiesce()
+		}
 		ctx.postTape = readTape(st)
 		res.TapeLen = len(ctx.postTape)
 		ctx.scan = rig.Scan(ctx.postTape)
@@ -546,7 +551,7 @@ func RunE1(env *Env, job *E1Job) *E1Res {
 		hk := ""
 		for slot := 0; slot < 4; slot++ {
 			if h := st.Handles[slot]; h != nil {
-				hk += fmt.Sprintf("h%d:%s:%d:r%v:w%v;", slot, h.Path, h.Flags, h.Reads > 0, h.Writes > 0)
+				hk += fmt.Sprintf("h%d:%s:%d:r%v:w%v:s%v;", slot, h.Path, h.Flags, h.Reads > 0, h.Writes > 0, h.Seeks > 0)
 			}
 		}
 		res.Key = hashKey(m.Key(), rowsKey(liveRows), rebuiltKey, fmt.Sprint(align), hk)
@@ -564,7 +569,18 @@ func RunE1(env *Env, job *E1Job) *E1Res {
 		viol("C10", "C10|"+cls, det)
 		if strings.HasPrefix(info.Hang.Phase, "op") {
 			viol("C02", "C02|"+cls, det)
-		} else {
+		}
+		if job.Foreign != nil && (strings.HasPrefix(info.Hang.Phase, "op") || strings.HasPrefix(info.Hang.Phase, "prefix")) {
+			// a follow-up call on an opened foreign archive that never returns: the archive cannot be used as a file system.
+			// Calls in the prefix of a history run without a tree walk before them (the walk before the last call reads every
+			// member, which can hide a drive that the open left locked), so a hang there is reported too.
+			call := "last"
+			if f := strings.Fields(info.Hang.Phase); strings.HasPrefix(info.Hang.Phase, "prefix") && len(f) > 1 {
+				call = "first-after-open:" + f[1]
+			}
+			viol("C17", fmt.Sprintf("C17|call-never-returns|%s|format=%s|root=%s|%s", call, job.Foreign.Format, job.Foreign.RootStyle, info.Hang.Key()), fmt.Sprintf("archive: %s\nhistory: %s\n%s", job.Foreign, ops.HistString(job.Hist), det))
+		}
+		if !strings.HasPrefix(info.Hang.Phase, "op") {
 			for _, p := range []string{"C01", "C05", "C13", "C04", "C07", "C12"} {
 				if strings.HasSuffix(info.Hang.Phase, p) {
 					viol(p, p+"|"+cls, det)
